@@ -962,8 +962,45 @@ def check_C17(ctx):
                      "non-trivial = catalog operation events")
 
 
+def commit_design(ctx):
+    """Commit.tla: the durability protocol, every crash subset, plus its negative self-tests"""
+    tlc_check(ctx, "Commit", "MC_Commit.cfg", workers=6, timeout=1200)
+    if ctx.tier == "thorough":
+        tlc_check(ctx, "Commit", "MC_Commit_torn.cfg", workers=8, timeout=3600)
+    tlc_expect_violation(ctx, "Commit", "MC_Commit_nosync.cfg", "RecoveryOk", workers=4)
+    tlc_expect_violation(ctx, "Commit", "MC_Commit_nonewer.cfg", "RecoveryOk", workers=4)
+
+
+def run_commitio(ctx, runs, steps, profile="crash"):
+    """Every backend call of random histories must be a behaviour of Commit.tla (CommitTrace.tla)"""
+    trace = os.path.join(ctx.work, f"commitio-{profile}.ndjson")
+    p = sh([bin_path("commitio"), "--seed", str(ctx.seed), "--runs", str(runs), "--steps", str(steps), "--profile", profile, "--out", trace], timeout=1800)
+    stats = json.loads(p.stdout.strip().splitlines()[-1])
+    log(f"commitio {profile}: {stats['backend_ops']} backend calls, {stats['header_writes']} header writes, {stats['commits']} commits")
+    ok, info = tlc_trace_generic(ctx, "CommitTrace", trace, timeout=3600)
+    ctx.cov["evaluations"] += stats["backend_ops"]
+    ctx.notes[f"commit_protocol_{profile}"] = stats
+    if not ok:
+        rec = info["record"]
+        lines = [json.loads(l) for l in open(trace).read().splitlines()[: info["line"]]]
+        start = max(i for i, l in enumerate(lines) if l["e"] == "reset")
+        shown = {k: v for k, v in lines[-1].items() if k not in ("run", "i")}
+        what = (f"durability protocol: backend call {json.dumps(shown)[:300]} (line {info['line'] - start} of history {rec.get('run')}) is not a step "
+                f"Commit.tla allows here; the calls before it: {json.dumps([l['e'] for l in lines[-12:-1]])}")
+        sig = "commitio:" + hashlib.sha256(json.dumps([lines[start].get("cfg"), [l["e"] for l in lines[start:]]]).encode()).hexdigest()[:16]
+        payload = {"property": ctx.prop, "kind": "commitio", "seed": ctx.seed, "runs": runs, "steps": steps, "profile": profile, "tier": ctx.tier,
+                   "rejected": shown, "lines": lines[start:][-60:], "what": what, "signature": sig}
+        raise Violation(ctx.prop, save_replay(ctx.prop, payload), what, sig)
+    ctx.cov["traces_validated_against_impl"] += stats["runs"]
+    return stats
+
+
 def check_C01(ctx):
     build()
+    commit_design(ctx)
+    st0 = run_commitio(ctx, tiered(ctx, 12, 120), tiered(ctx, 200, 400))
+    if st0["commits"] < 100:
+        raise ToolError(f"vacuity: too few commits in the protocol traces: {st0}")
     runs, steps = tiered(ctx, (12, 150), (120, 300))
     st = run_crash(ctx, runs, steps)
     if st["probes_inside_commit"] < 10:
@@ -980,7 +1017,13 @@ def check_C01(ctx):
                      "crashed again during recovery), and the observation is placed in the API trace where the crash happened; TLC accepts "
                      "the trace iff every observation equals one commit point in [last durable, last requested] (Kv!CrashAtomic) and the "
                      "recovered database passes check_integrity() with unchanged contents. distinct_nontrivial = distinct (API event, "
-                     "outcome) pairs judged by TLC; evaluations = crash images opened.")
+                     "outcome) pairs judged by TLC; evaluations = crash images opened. design: Commit.tla - one action per backend "
+                     "call of commit() (slot write, sync, primary swap with the two-phase flag, sync), non-durable commits, header "
+                     "rewrites, and recovery (select_primary_slot + checksum fallback); a crash keeps ANY subset of the unsynced "
+                     "writes: every recovery finds a servable commit point not older than the last acknowledged one; the variants "
+                     "'first flush of 2PC does not reach the storage' and 'recovery ignores a newer secondary' are caught. code: every "
+                     "backend call of further histories (header writes decoded) is validated as a behaviour of Commit.tla "
+                     "(CommitTrace.tla).")
 
 
 def pager_design(ctx):
@@ -1492,7 +1535,7 @@ def main(argv):
                 still = replay_crash_case(ctx, replay)
             elif payload.get("kind") == "sched":
                 still = replay_sched(ctx, payload)
-            elif payload.get("kind", "").startswith("contract") or payload.get("kind") in ("keys", "forest"):
+            elif payload.get("kind", "").startswith("contract") or payload.get("kind") in ("keys", "forest", "commitio"):
                 ctx.seed = payload.get("seed", ctx.seed)
                 ctx.tier = payload.get("tier", ctx.tier)
                 try:
